@@ -415,8 +415,12 @@ func c14Scenarios(thorough bool) []scenario {
 // C14 explores every interleaving of every producer/consumer program pair.
 func C14(c *core.Ctx) {
 	scs := c14Scenarios(c.Thorough())
-	c.Rep.Bound = "all interleavings (no preemption bound), happens-before state caching"
+	c.Rep.Bound = "all interleavings (no preemption bound), happens-before state caching; plus single-thread streams over rings requested with 9 sizes (powers of two and not)"
 	c.Rep.Rule = fmt.Sprintf("scenarios = start offset x prefill x producer program x consumer program over the real ring of %d bytes (%d scenarios in this tier); per scenario every interleaving of producer and consumer at lock/cond/atomic granularity; an execution is non-trivial when the consumer obtained at least one byte the producer committed concurrently; distinct = distinct happens-before states", size, len(scs))
+	c14sizes(c)
+	if c.HasViolation() || c.Expired() {
+		return
+	}
 	for _, sc := range scs {
 		if !c.Mine() {
 			continue
@@ -450,6 +454,132 @@ func C14(c *core.Ctx) {
 			c.Rep.Nontrivial += int64(len(st.Outcomes))
 		}
 	}
+}
+
+// c14sizes: rings of other configured sizes (BufferSize is a setting; anything
+// is rounded by newBuffer).  One thread alternates between producing a backlog
+// of three quarters of the ring in 3000-byte chunks (Write, reserve+commit) and
+// consuming it in 1000-byte chunks (Read, peek+commit), for three laps, on
+// rings requested with sizes that are and are not powers of two.
+func c14sizes(c *core.Ctx) {
+	for si, req := range []int64{16384, 20000, 24576, 32768, 40000, 65536, 70000, 100000, 262144} {
+		if c.NShards > 1 && si%c.NShards != c.Shard {
+			continue
+		}
+		name := fmt.Sprintf("ring requested with %d bytes", req)
+		if c.Replay != nil && c.Replay.Scenario != name {
+			continue
+		}
+		if c.Expired() || c.HasViolation() {
+			return
+		}
+		req := req
+		body := func() {
+			service.VerifResetGlobals()
+			bf, err := service.VerifNewBuffer(req)
+			if err != nil {
+				vsched.Failf("newBuffer(%d): %v", req, err)
+				return
+			}
+			var ppos, cpos int64
+			backlog := req * 3 / 4
+			for lap := 0; lap < 4; lap++ {
+				k := 0
+				for ppos-cpos+3000 <= backlog {
+					p := make([]byte, 3000)
+					fill(p, ppos)
+					if k%2 == 0 {
+						n, err := bf.Write(p)
+						if err != nil || n != len(p) {
+							vsched.Failf("Write: n=%d err=%v", n, err)
+							return
+						}
+					} else {
+						buf, wrap, err := bf.WriteWait(len(p))
+						if err != nil {
+							vsched.Failf("WriteWait: %v", err)
+							return
+						}
+						if wrap {
+							if n, err := bf.Write(p); err != nil || n != len(p) {
+								vsched.Failf("Write: n=%d err=%v", n, err)
+								return
+							}
+						} else {
+							copy(buf, p)
+							if _, err := bf.WriteCommit(len(p)); err != nil {
+								vsched.Failf("WriteCommit: %v", err)
+								return
+							}
+						}
+					}
+					ppos += 3000
+					k++
+				}
+				for cpos < ppos {
+					n := int64(1000)
+					if ppos-cpos < n {
+						n = ppos - cpos
+					}
+					var got []byte
+					if k%2 == 0 {
+						got = make([]byte, n)
+						m, err := bf.Read(got)
+						if err != nil {
+							vsched.Failf("Read: %v", err)
+							return
+						}
+						got = got[:m]
+					} else {
+						p, err := bf.ReadPeek(int(n))
+						if err != nil && err != service.ErrBufferInsufficientData {
+							vsched.Failf("ReadPeek: %v", err)
+							return
+						}
+						got = append([]byte(nil), p...)
+						if _, err := bf.ReadCommit(len(p)); err != nil {
+							vsched.Failf("ReadCommit: %v", err)
+							return
+						}
+					}
+					if len(got) == 0 {
+						vsched.Failf("the consumer obtained nothing although %d bytes are committed", ppos-cpos)
+						return
+					}
+					if i := check(got, cpos); i >= 0 {
+						vsched.Failf("ring requested with %d bytes: the consumer obtained a wrong byte at stream position %d (lap %d)", req, cpos+int64(i), lap)
+						return
+					}
+					cpos += int64(len(got))
+					k++
+				}
+			}
+			vsched.Logf("ok")
+		}
+		res := explore.RunDefault(body)
+		if c.Replay != nil {
+			fmt.Println("replay:", name, res.Failures, firstLine(res.Crash))
+			c.Rep.Scenarios++
+			return
+		}
+		c.Rep.Executions++
+		c.Rep.Evaluations++
+		c.Rep.Transitions += int64(len(res.Points))
+		msg := ""
+		if res.Status == vsched.StCrash {
+			msg = "panic: " + firstLine(res.Crash)
+		} else if len(res.Failures) > 0 {
+			msg = res.Failures[0]
+		} else if len(res.Parked) > 0 {
+			msg = "the single thread blocks: " + core.ParkedString(res.Parked)
+		}
+		if msg != "" {
+			if c.Violate("C14 sizes :: "+generalize(msg), core.Replay{Scenario: name, Message: msg}) {
+				return
+			}
+		}
+	}
+	c.Rep.Scenarios++
 }
 
 func firstLine(s string) string {
